@@ -117,3 +117,18 @@ impl<K: ExpiredKey<E>, E: Expiration, V: Copy> KeyExpList<K, E, V> {
         self.min_exp = new_min_exp;
     }
 }
+
+#[cfg(feature = "itree_verif")]
+impl<K: ExpiredKey<E>, E: Expiration, V: Copy> KeyExpList<K, E, V> {
+    /// (entries in buffer order, cached lower bound of the stored expirations)
+    pub fn verif_state(&self) -> (Vec<(K, V)>, E) {
+        (self.buffer.iter().map(|e| (e.key, e.val)).collect(), self.min_exp)
+    }
+
+    pub fn verif_clone(&self) -> Self {
+        Self {
+            buffer: self.buffer.clone(),
+            min_exp: self.min_exp,
+        }
+    }
+}
